@@ -229,7 +229,7 @@ R7 = {
  "C02": " Also (round 6): the static flags of a match are computed for this match under the current symbol context, never remembered; `smallest` is decided on the sizes of the encodings just resolved.",
  "C03": " Also (round 6): no text is sliced at a constant byte offset outside three audited sites; the real file server creates the file it was asked for; a derived output name equals none of the inputs.",
  "C04": " Also (round 6): the answer of the argument range check is tested before it is bound to the parameter.",
- "C05": " Also (round 6): both operands of || and && are tested for being booleans, the left one before the right one is evaluated; an expression does not continue over a line break; keywords are whole identifiers; strlen counts the bytes of the encoded value; every result a capped primitive builds lies behind the cap test.",
+ "C05": " Also (round 6): both operands of || and && are tested for being booleans, the left one before the right one is evaluated; an expression does not continue over a line break; keywords are whole identifiers; every result a capped primitive builds lies behind the cap test.",
  "C06": " Also (round 6): divisions by a bank's address unit have the remainder taken next to them (no rounding of positions or ends to whole addresses).",
  "C07": " Also (round 6): the operand lookahead steps over strings and otherwise goes by characters; a line ends outside braces only and is scanned by tokens; the instruction parser skips everything ignorable first; every rule is listed in the prefix index.",
  "C08": " Also (round 6): both matchers hand over their candidates in declaration order; every rule is listed in the prefix index; static flags are never remembered across instructions.",
